@@ -239,6 +239,17 @@ def check_setorder(case):
     out = []
     runs = 0
     points = [(i, sz, site) for i, (sz, site) in enumerate(log) if sz >= 2]
+    cap = case.get("per_site_cap")
+    if cap:
+        # quick tier: the first `cap` iterations of every (code site, set size) pair
+        seen_sites = {}
+        kept = []
+        for (i, sz, site) in points:
+            k = (site, sz)
+            seen_sites[k] = seen_sites.get(k, 0) + 1
+            if seen_sites[k] <= cap:
+                kept.append((i, sz, site))
+        points = kept
     for (i, sz, site) in points:
         for p in alt_perms(sz):
             Ctrl.reset(target=i, perm=lambda items, p=p: [items[j] for j in p] if len(p) == len(items)
